@@ -239,6 +239,30 @@ def native_equiv(a, b):
     return a == b
 
 
+def default_roundtrip(T, eof=False):
+    """T() -> dumps() -> parse: problems found (natively, on the real library)."""
+    from dissect.cstruct.types.structure import UnionMetaType
+
+    if isinstance(T, UnionMetaType) and T.dynamic:
+        return []
+    bad = []
+    try:
+        v0 = T()
+        out = T.dumps(v0)
+    except Exception as e:  # noqa: BLE001
+        return [f"T().dumps() raises {type(e).__name__}: {str(e)[:80]}"]
+    s = io.BytesIO(out + (b"" if eof else b"\x5a\xa5"))
+    try:
+        v1 = T._read(s)
+    except Exception as e:  # noqa: BLE001
+        return [f"parsing dumps(T()) = {out.hex()} raises {type(e).__name__}: {str(e)[:80]}"]
+    if not (v1 == v0):  # the statement's own notion: "a value equal to v"
+        bad.append(f"parse(dumps(T())) = {v1!r} != T() = {v0!r}"[:300])
+    if s.tell() != len(out):
+        bad.append(f"re-parse of dumps(T()) consumed {s.tell()} of {len(out)} bytes")
+    return bad
+
+
 def data_extent(t):
     """Offset just past the last data-carrying byte of a fixed-size type (tail padding, also nested, carries no data)."""
     from dissect.cstruct.types import BaseArray, Structure
@@ -389,6 +413,12 @@ class Pipeline(T2Case):
         if not self.load_or_reject(ctx):
             return
         T = self.cls(self.compiled)
+        if self.want("C01") and not getattr(self, "_default_done", False):
+            # values "constructed directly": the default-constructed value dumps and parses back (evaluated on the real
+            # library; also covers a reader that refuses every input, which the parse-first clauses below cannot see)
+            self._default_done = True
+            bad = default_roundtrip(T, has_eof_array(self.prog))
+            ctx.prove("C01/default-constructed-value-roundtrips", not bad, info="; ".join(bad)[:300] or "T() -> dumps -> parse == T()")
         D, p = self.new_input(ctx)
         it = self.interp(ctx)
         s = SymStream(ctx, D, p, name="in")
@@ -654,6 +684,10 @@ def native_pipeline(prog, compiled, props, inputs):
     T = prog.load(compiled).T
     obs = {}
     bad = []
+    if "C01" in props:
+        bad += default_roundtrip(T, has_eof_array(prog))
+        if bad:
+            return {"reproduced": True, "observed": {"violations": bad}}
     s = io.BytesIO(data)
     s.seek(p)
     try:
